@@ -12,19 +12,69 @@ namespace TB
 /-- the writer never panics: too-short matched bytes are an I/O error of the piece -/
 theorem C16_writer_total (st : St) (pairs : List (WSeg × Option Path)) (buf : Bytes) (start : Nat) :
     (writeSegs st pairs buf start).2 ≠ .panic := by
-  sorry
+  exact RunL.writeSegs_total st pairs buf start
 
 /-- evaluating a piece never panics, whatever the hash function, the tree, the candidates and the fault points,
     provided a single-segment piece is not an empty non-padding segment (a fact of the layout) -/
 theorem C16_piece_total (H : Bytes → Bytes) (st : St) (w : Work)
     (hsingle : ∀ s, w.segs = [s] → s.len ≠ 0 ∨ s.ent.isPad = true) :
     (solvePiece H st w).2 ≠ .panic := by
-  sorry
+  unfold solvePiece
+  simp only
+  split
+  · simp
+  · rename_i hrej
+    split
+    · rename_i seg hseg
+      split
+      · split <;> simp
+      · rename_i hpad
+        split
+        · rename_i hnone
+          exfalso
+          rw [hseg] at hrej
+          simp [hpad, hnone] at hrej
+          rcases hsingle seg hseg with h | h
+          · exact h hrej
+          · exact hpad h
+        · rename_i paths hs
+          have hsc := RB.scanSingle_spec H w.hash seg st paths
+          split
+          · exact RunL.writeSegs_total _ _ _ _
+          · simp
+          · simp
+          · rename_i st1 heq; exact absurd (by rw [heq]) hsc.1
+    · rename_i segs hns
+      have hpl := RB.preload_no_panic st w.segs
+      split
+      · split
+        · exact RunL.writeSegs_total _ _ _ _
+        · simp
+      · simp
+      · rename_i st1 heq; exact absurd (by rw [heq]) hpl
 
 /-- run level, unconditional: a run on loadable torrents — any tree, any candidate order, any evaluation order,
     any fault points, any hash function — returns a result and never panics -/
 theorem C16_run_total (H : Bytes → Bytes) (inp : RunIn) (hload : ∀ t ∈ inp.torrents, Loadable H t) :
     (run H inp).result ≠ .panic := by
-  sorry
+  rcases RunH.run_cases H inp with h | h | ⟨c, hnone⟩ | ⟨c, st, ordered, hwork, hord, hres⟩
+  · rw [h]; intro hc; cases hc
+  · rw [h]; intro hc; cases hc
+  · exfalso
+    have hsome := C16_work_total H inp.exportDir.path _ (dedupTorrents (sortTorrents inp.torrents)) c inp.searchObs
+      (fun t ht => ht)
+      (fun t ht => hload t ((RB.mem_sortTorrents _ _).1 (RB.dedupTorrents_mem _ t ht)))
+    rw [hnone] at hsome
+    cases hsome
+  · have hnp : ∀ w ∈ ordered, ∀ st, (solvePiece H st w).2 ≠ .panic := by
+      intro w hw st'
+      have hwm := hord w hw
+      apply C16_piece_total H st' w
+      intro s hs
+      obtain ⟨t, ht, wt, hwt, hwin⟩ := RunH.convert_mem hwork w hwm
+      exact .inl (C16_work_single H _ t wt
+        (hload t ((RB.mem_sortTorrents _ _).1 (RB.dedupTorrents_mem _ t ht))) hwt w hwin s hs)
+    rw [hres, RunH.solveAll_no_panic H ordered hnp]
+    intro hc; cases hc
 
 end TB
